@@ -60,7 +60,13 @@ DispatchTriples ==
     UNION {{LCase(c, sv, [ok |-> TRUE, err |-> 0], TRUE, "dispatch-triples") : sv \in ThreeAtATime(CommandTable[c].schema, F, TRUE)}
            : c \in {1, 2, 6, 10, 12}}
 
-MC_Cases == Ctap2Cases \cup Ctap1Cases \cup VendorCases \cup Ctap1Constructed \cup DispatchLattice \cup DispatchPairs \cup DispatchTriples
+\* ... nor on particular CONTENTS: the words of the source's dictionary in every text member, on
+\* the bases "every optional member present, lowest value" and "... default value"
+DispatchDict ==
+    UNION {{LCase(c, sv, [ok |-> TRUE, err |-> 0], TRUE, "dispatch-dictionary") : sv \in DictLattice(CommandTable[c].schema, F, TRUE)}
+           : c \in {1, 2, 6, 10, 12}}
+
+MC_Cases == Ctap2Cases \cup Ctap1Cases \cup VendorCases \cup Ctap1Constructed \cup DispatchLattice \cup DispatchPairs \cup DispatchTriples \cup DispatchDict
 
 (***************************************************************************)
 (* C10 on the model                                                        *)
